@@ -473,7 +473,13 @@ func (tree *MutableTree) LoadVersion(targetVersion int64) (int64, error) {
 			if !tree.skipFastStorageUpgrade {
 				tree.mtx.Lock()
 				defer tree.mtx.Unlock()
+				// There is nothing to load and the working tree is kept as it is. The persistent
+				// fast index must describe the committed state (no version yet), not the
+				// uncommitted changes of the working tree, which Rollback could not take back.
+				working := tree.ImmutableTree
+				tree.ImmutableTree = tree.lastSaved.clone()
 				_, err := tree.enableFastStorageAndCommitIfNotEnabled()
+				tree.ImmutableTree = working
 				return 0, err
 			}
 			return 0, nil
